@@ -636,6 +636,7 @@ func zzH_C03_tie_break_step(t *zzT) {
 	t.Assert(finAfter == finBefore, "refused competing block leaves the finalized height unchanged")
 	mhpA, preA, certA := n.heights()
 	t.Assert(mhpA == mhpB && preA == preB && certA == certB, "refused competing block leaves the BFT heights unchanged")
+	t.Assert(n.ex.lastBlockReceived != nil && n.ex.lastBlockReceived.Equal(late), "refused competing block leaves the receive time of the tip unchanged (it decides the next tie break)")
 	static := dev == "dev.transactionRoot" || dev == "dev.txStaticallyInvalid"
 	if static {
 		writes, direct, _ := db.ZZMonitor(n.database)
